@@ -1,37 +1,36 @@
 /-
 C14 — path expressions select what the documented path syntax denotes.
 
-Main theorems (model A = Flatland/Path.lean, spec B = Flatland/Spec/C14.lean):
+Main theorems (model A = Flatland/Path.lean, spec B = Flatland/Spec/C14.lean).  `Uni strict ops` /
+`UniSteps strict steps` = the evaluation can raise one kind of error only: no slice step written as 0
+(only LookupError), or non-strict lookups (only ValueError).  With strict lookups AND a zero step,
+which error is met first depends on the order of evaluation; that case is not covered.
 
 * `evalOps_denotes`   the FIFO work list of `PathExpression.__call__` = the depth-first reading
-                      `denOps` of the op list: same elements, same order, same error — for every
-                      op list without a zero stride, every tree, every start, strict or not;
-* `tokenize_noZero`   `tokenize` never produces a zero stride (for every string);
-* `find_denotes`      hence `find(path, single, strict)` = the `single` table applied to the
-                      depth-first reading of `tokenize(path)` — for every string;
-* `denOps_compile`    the op list a path AST compiles to denotes what spec B says (`denote`:
-                      step by step over the whole current selection), for every AST, including
-                      `[-n]` = "n-th from the end or nothing" and the start/stride defaults;
+                      `denOps` of the op list: same elements, same order, same error (Uni);
+* `find_denotes`      `find(path, single, strict)` = the `single` table applied to the depth-first
+                      reading of `tokenize(path)`, for every string that compiles (Uni); `find_error`
+                      for those that do not; `single_spec` restates the table (by construction);
+* `denOps_compile`    the op list a path AST compiles to denotes what spec B says (`denote`: step by
+                      step over the whole selection), incl. `[-n]`, slice defaults and steps written
+                      as 0 (ValueError on both sides) (UniSteps);
 * `canonicalize_sound`  on the `Canon` domain `_canonicalize` preserves the denotation;
-* `eval_denotes`      Canon p → evalOps (canonicalize (compile p)) = denote p;
-* `single_spec`       the `single=True` table;
+* `eval_denotes`      Canon p → evalOps (canonicalize (compile p)) = denote p (UniSteps);
 * `C14_Full` / `C14_full_fails`  without `Canon` the statement is false of the code as it is
-                      (KF-C14-a): `nosuch/..` strict.
-
-* `tokenize_print`    **tokenizer ∘ printer for the whole concrete syntax** (`CPath`): leading/trailing
-                      slash, `..`/`.` anywhere, names with minimal or full escaping, `[n]` or `/n`,
-                      `[-n]`, `[a:b]`, `[a:b:c]` with omitted bounds, bracket steps attached with or
-                      without a slash: `tokenize (print p) = compile p` (canonicalised iff the path
-                      has `.`/`..`), for ints within `int()`'s digit limit (`StepFits`);
-* `find_print_denotes`  **end to end**: `find(print p, single, strict)` = spec B's `findSpec` of the
-                      AST, for every tree, start element, `single`, `strict`, on the Canon domain;
-* `eval_cancel_denotes` / `find_print_cancel`  without `Canon`: what the code evaluates is, for every
-                      well-formed path, the documented reading of the path with every `X/..` pair and
-                      every `.` deleted (`cancel`) — the exact content of KF-C14-a;
-* `denote_sorted` / `find_sorted`  "in sequence order": Canon + ascending strides ⇒ the results are
-                      strictly increasing in document order (no duplicates);
-* `tokenize_print_names`  the name fragment separately (escaped punctuation is a literal name
-                      character), also for names the bracket-free printer of C13 needs.
+                      (KF-C14-a): `nosuch/..` strict;
+* `eval_cancel_denotes` / `find_print_cancel`  without `Canon`: what the code evaluates is the documented
+                      reading of the path with every `X/..` pair and every `.` deleted (`cancel`);
+* `tokenize_print`    tokenizer ∘ printer for the whole concrete syntax (`CPath`): leading/trailing slash,
+                      `..`/`.` anywhere, names with minimal or full escaping (a name ending in a
+                      backslash as the very last step), `[n]` or `/n`, `[-n]`, `[a:b]`, `[a:b:c]` with
+                      omitted bounds and with c = 0, bracket steps attached with or without a slash;
+* `find_print_denotes` / `find_print_denotes_lax`  end to end: `find(print p, single, strict)` = spec B's
+                      `findSpec`, on the Canon domain (UniSteps; the lax version needs nothing else);
+* `zero_stride_stays_zero`, `zero_step_raises`, `C14_zero_step_ok`  a step written as 0 raises ValueError
+                      as soon as it is reached, strict or not (9884fd3; KF-C14-b is closed);
+* `denote_sorted` / `find_sorted`  Canon + ascending strides ⇒ results strictly increasing in document order;
+* `lax_never_raises`, `find_lax_never_lookup`, `strict_ok_eq_lax`, `no_names_never_raises`;
+* `tokenize_print_names`  the name fragment separately.
 
 Trusted, not proved: that `scan` is `_tokenize_re.findall` and `pyInt`/`pySlice` are Python's
 `int()`/slicing (pinned regex text, generated Unicode tables, correspondence on every run incl.
@@ -56,7 +55,7 @@ theorem flatMapM_singleton {α β : Type} (f : α → Except Err (List β)) (x :
 
 /-- **evaluator = denotation on op lists**, full strength -/
 theorem evalOps_denotes (root : Node) (strict : Bool) (ops : List Op) (el : Pos)
-    (hz : NoZero ops = true) :
+    (hz : Uni strict ops) :
     evalOps root strict ops el = denOps root strict ops el := by
   unfold evalOps
   have := work_level root strict ops.length ops (Nat.le_refl _) hz [el]
@@ -68,86 +67,10 @@ example : (match evalOps (.mk .list [] [] [.mk .list [] [] [.mk .scalar [] [] []
       true [.slice none none none, .slice none none none] [] with
     | .ok l => l == [[0, 0], [0, 1], [1, 0]]
     | .error _ => false) = true := by
-  rw [evalOps_denotes _ _ _ _ (by decide)]
+  rw [evalOps_denotes _ _ _ _ (Or.inl (by decide))]
   decide
 
-/-! ### `tokenize` never yields a zero stride -/
-
-theorem parseSlice_stepOk (s : Str) (op : Op) (h : parseSlice s = some op) : Op.stepOk op = true := by
-  unfold parseSlice at h
-  split at h
-  · simp only [Option.some.injEq] at h; subst h; rfl
-  · split at h
-    · split at h
-      · simp only [Option.some.injEq] at h; subst h; rfl
-      · split at h
-        · simp at h
-        · split at h <;> (simp only [Option.some.injEq] at h; subst h; rfl)
-    · split at h
-      · split at h
-        · simp at h
-        · split at h
-          · simp at h
-          · simp only [Option.some.injEq] at h; subst h; rfl
-      · split at h
-        · simp at h
-        · split at h
-          · simp at h
-          · split at h
-            · simp at h
-            · next stride hs =>
-              simp only [Option.some.injEq] at h; subst h
-              simp only [Op.stepOk, bne_iff_ne, ne_eq]
-              split at hs
-              · simp only [Option.some.injEq] at hs; subst hs; decide
-              · cases hp : pyInt _ with
-                | none => rw [hp] at hs; simp at hs
-                | some v =>
-                  rw [hp] at hs
-                  simp only [Option.map_some, Option.some.injEq] at hs
-                  subst hs
-                  split <;> simp_all
-      · simp at h
-
-theorem tokStep_stepOk (st st' : TState) (t : RawTok) (h : tokStep st t = .ok st')
-    (hs : st.toks.all Op.stepOk = true) : st'.toks.all Op.stepOk = true := by
-  unfold tokStep at h
-  simp only at h
-  split at h
-  · split at h
-    · simp only [Except.ok.injEq] at h; subst h; simpa [Op.stepOk] using hs
-    · split at h <;> (simp only [Except.ok.injEq] at h; subst h; simpa [Op.stepOk] using hs)
-  · split at h
-    · simp only [Except.ok.injEq] at h; subst h; simpa [Op.stepOk] using hs
-    · split at h
-      · simp only [Except.ok.injEq] at h; subst h; simpa [Op.stepOk] using hs
-      · split at h
-        · split at h
-          · simp at h
-          · next op hp =>
-            simp only [Except.ok.injEq] at h; subst h
-            simp only [List.all_cons, Bool.and_eq_true]
-            exact ⟨parseSlice_stepOk _ _ hp, hs⟩
-        · split at h
-          · split at h
-            · simp at h
-            · simp only [Except.ok.injEq] at h; subst h
-              simp only [List.all_cons, Op.stepOk, Bool.true_and]
-              cases hst : st.toks with
-              | nil => rfl
-              | cons a b => rw [hst] at hs; simp only [List.all_cons, Bool.and_eq_true] at hs; simpa using hs.2
-          · simp only [Except.ok.injEq] at h; subst h; simpa [Op.stepOk] using hs
-
-theorem tokLoop_stepOk : ∀ (raw : List RawTok) (st st' : TState), tokLoop st raw = .ok st' →
-    st.toks.all Op.stepOk = true → st'.toks.all Op.stepOk = true
-  | [], st, st', h, hs => by simp only [tokLoop, Except.ok.injEq] at h; subst h; exact hs
-  | t :: r, st, st', h, hs => by
-    simp only [tokLoop] at h
-    cases hst : tokStep st t with
-    | error e => rw [hst] at h; simp at h
-    | ok st1 =>
-      rw [hst] at h
-      exact tokLoop_stepOk r st1 st' h (tokStep_stepOk st st1 t hst hs)
+/-! ### `_canonicalize` introduces no zero stride -/
 
 theorem canonStep_stepOk (multi : Bool) (canon : List Op) (t : Op)
     (hc : canon.all Op.stepOk = true) (ht : Op.stepOk t = true) :
@@ -176,21 +99,6 @@ theorem canonicalize_noZero (ops : List Op) (h : NoZero ops = true) : NoZero (ca
   rw [List.all_reverse]
   exact foldl_canonStep_stepOk _ ops [] rfl h
 
-/-- `tokenize` never produces a zero stride (`[::0]` is read as stride 1) -/
-theorem tokenize_noZero (path : Str) (ops : List Op) (h : tokenize path = .ok ops) : NoZero ops = true := by
-  unfold tokenize at h
-  cases hl : tokLoop {} (scan none path) with
-  | error e => rw [hl] at h; simp at h
-  | ok st =>
-    rw [hl] at h
-    simp only [Except.ok.injEq] at h
-    have hs := tokLoop_stepOk _ _ _ hl rfl
-    have hr : NoZero st.toks.reverse = true := by unfold NoZero; rw [List.all_reverse]; exact hs
-    subst h
-    split
-    · exact hr
-    · exact canonicalize_noZero _ hr
-
 /-! ### `find` -/
 
 /-- the outcome of `find` given the evaluation result -/
@@ -199,41 +107,44 @@ def findResOf (single strict : Bool) (r : Except Err (List Pos)) : FindRes :=
   | .error e => .err e
   | .ok res => if single then singleOf strict (.ok res) else .many res
 
-/-- **`find` = the documented reading of the compiled path**, for every string, tree, start,
-    `single` and `strict` -/
-theorem find_denotes (root : Node) (start : Pos) (path : Str) (single strict : Bool) :
-    find root start path single strict =
-      match tokenize path with
-      | .error e => .err e
-      | .ok ops => findResOf single strict (denOps root strict ops start) := by
-  unfold find
-  cases ht : tokenize path with
-  | error e => rfl
-  | ok ops =>
-    simp only [evalOps_denotes root strict ops start (tokenize_noZero path ops ht)]
-    cases denOps root strict ops start with
-    | error e => rfl
-    | ok res =>
-      cases single with
-      | false => rfl
-      | true =>
-        simp only [findResOf, Bool.not_true, Bool.false_eq_true, if_false, if_true, singleOf]
-        match res with
-        | [] => rfl
-        | [p] => rfl
-        | p :: q :: r => rfl
+/-- a path that does not compile: `find` raises what `tokenize` raised -/
+theorem find_error (root : Node) (start : Pos) (path : Str) (single strict : Bool) (e : Err)
+    (ht : tokenize path = .error e) : find root start path single strict = .err e := by
+  unfold find; rw [ht]
 
-/-- **the `single=True` table**: sole match, `None` for none, `LookupError` for several when
-    strict, else the first -/
+/-- **`find` = the documented reading of the compiled path**, for every string that compiles, every
+    tree, start and `single` — whenever the evaluation can raise only one kind of error (`Uni`: no
+    slice step written as zero, or non-strict lookups) -/
+theorem find_denotes (root : Node) (start : Pos) (path : Str) (single strict : Bool) (ops : List Op)
+    (ht : tokenize path = .ok ops) (hu : Uni strict ops) :
+    find root start path single strict = findResOf single strict (denOps root strict ops start) := by
+  unfold find
+  rw [ht]
+  simp only [evalOps_denotes root strict ops start hu]
+  cases denOps root strict ops start with
+  | error e => rfl
+  | ok res =>
+    cases single with
+    | false => rfl
+    | true =>
+      simp only [findResOf, Bool.not_true, Bool.false_eq_true, if_false, if_true, singleOf]
+      match res with
+      | [] => rfl
+      | [p] => rfl
+      | p :: q :: r => rfl
+
+/-- the `single=True` table (sole match, `None` for none, `LookupError` for several when strict,
+    else the first) — by construction: it restates the `match` in the model's `find`, composed
+    with `find_denotes` -/
 theorem single_spec (root : Node) (start : Pos) (path : Str) (strict : Bool) (ops : List Op)
-    (ht : tokenize path = .ok ops) :
+    (ht : tokenize path = .ok ops) (hu : Uni strict ops) :
     find root start path true strict =
       match denOps root strict ops start with
       | .error e => .err e
       | .ok [] => .one none
       | .ok [p] => .one (some p)
       | .ok (p :: _ :: _) => if strict then .err .lookup else .one (some p) := by
-  rw [find_denotes, ht]
+  rw [find_denotes _ _ _ _ _ _ ht hu]
   simp only [findResOf]
   cases denOps root strict ops start with
   | error e => rfl
@@ -351,8 +262,7 @@ theorem denOps_slice (root : Node) (strict : Bool) (a b c : Option Int) (hc : (c
   simp only [denOps, hc, kidsAt_length]
   rfl
 
-/-- one step of the AST, compiled, = the step's denotation followed by the rest -/
-theorem denOps_step (root : Node) (strict : Bool) (s : Step) (hs : s.wf = true) (r : List Op) (el : Pos) :
+theorem denOps_step_wf (root : Node) (strict : Bool) (s : Step) (hs : s.wf = true) (r : List Op) (el : Pos) :
     denOps root strict (compileStep s :: r) el
       = andThen (stepDen root strict s el) (flatMapM (denOps root strict r)) := by
   cases s with
@@ -407,32 +317,87 @@ theorem denOps_step (root : Node) (strict : Bool) (s : Step) (hs : s.wf = true) 
       simp only [compileStep, Option.getD_some]
       rw [denOps_slice _ _ _ _ _ hv]; rfl
 
+/-- one step of the AST, compiled, = the step's denotation followed by the rest; a step written
+    with stride 0 raises `ValueError` on both sides -/
+theorem denOps_step (root : Node) (strict : Bool) (s : Step) (r : List Op) (el : Pos) :
+    denOps root strict (compileStep s :: r) el
+      = andThen (stepDen root strict s el) (flatMapM (denOps root strict r)) := by
+  by_cases hs : s.wf = true
+  · exact denOps_step_wf root strict s hs r el
+  · -- only `[a:b:0]` is not wf
+    cases s with
+    | up => exact absurd rfl hs
+    | here => exact absurd rfl hs
+    | name _ => exact absurd rfl hs
+    | negidx _ => exact absurd rfl hs
+    | slice a b c =>
+      match c, hs with
+      | none, hs => exact absurd rfl hs
+      | some none, hs => exact absurd rfl hs
+      | some (some v), hs =>
+        have hv : v = 0 := by simpa [Step.wf] using hs
+        subst hv
+        have hc : compileStep (.slice a b (some (some 0))) = .slice a b (some 0) := by
+          cases a <;> cases b <;> rfl
+        simp [hc, denOps, stepDen, Step.stride]
+
+/-- strict lookups with no zero stride raise only `LookupError`; non-strict ones only `ValueError` -/
+theorem stepDen_onlyErr (root : Node) (strict : Bool) (s : Step) (hs : s.wf = true ∨ strict = false)
+    (el : Pos) : OnlyErr (errOf strict) (stepDen root strict s el) := by
+  cases strict with
+  | true =>
+    rcases hs with h | h
+    · exact stepDen_onlyLookup root true s h el
+    · cases h
+  | false =>
+    intro e h
+    unfold stepDen at h
+    cases s with
+    | up => simp at h
+    | here => simp at h
+    | name nm =>
+      simp only at h
+      split at h <;> simp at h
+    | negidx k => simp at h
+    | slice a b c =>
+      simp only at h
+      split at h
+      · simp only [Except.error.injEq] at h; exact h.symm
+      · simp at h
+
 theorem flatMapM_pure {α : Type} : ∀ xs : List α, flatMapM (fun x => (.ok [x] : Except Err (List α))) xs = .ok xs
   | [] => rfl
   | x :: xs => by simp [flatMapM, flatMapM_pure xs]
 
+/-- the steps raise one kind of error only: none is written with stride 0, or lookups are non-strict -/
+def UniSteps (strict : Bool) (steps : List Step) : Prop := steps.all Step.wf = true ∨ strict = false
+
+theorem uni_compile_steps (strict : Bool) (steps : List Step) (h : UniSteps strict steps) :
+    Uni strict (steps.map compileStep) := h.imp (compile_noZero steps) id
+
 /-- depth-first on the compiled steps = spec B's step-by-step reading over the whole selection -/
 theorem denOps_steps (root : Node) (strict : Bool) :
-    ∀ (steps : List Step), steps.all Step.wf = true → ∀ cur : List Pos,
+    ∀ (steps : List Step), UniSteps strict steps → ∀ cur : List Pos,
       flatMapM (denOps root strict (steps.map compileStep)) cur = denoteSteps root strict steps cur
   | [], _, cur => by
     simp only [List.map_nil, denoteSteps]
     have : denOps root strict [] = fun el => .ok [el] := funext (fun el => by simp [denOps])
     rw [this, flatMapM_pure]
   | s :: r, hwf, cur => by
-    simp only [List.all_cons, Bool.and_eq_true] at hwf
+    have hs : s.wf = true ∨ strict = false := hwf.imp (fun h => by simp only [List.all_cons, Bool.and_eq_true] at h; exact h.1) id
+    have hr : UniSteps strict r := hwf.imp (fun h => by simp only [List.all_cons, Bool.and_eq_true] at h; exact h.2) id
     have hfun : denOps root strict ((s :: r).map compileStep)
         = fun el => andThen (stepDen root strict s el) (flatMapM (denOps root strict (r.map compileStep))) :=
-      funext (fun el => by rw [List.map_cons, denOps_step root strict s hwf.1])
-    rw [hfun, flatMapM_bind _ _ (stepDen_onlyLookup root strict s hwf.1)
-      (denOps_onlyLookup root strict _ (compile_noZero r hwf.2))]
+      funext (fun el => by rw [List.map_cons, denOps_step root strict s])
+    rw [hfun, flatMapM_bind _ _ (stepDen_onlyErr root strict s hs)
+      (denOps_onlyErr root strict _ (uni_compile_steps strict r hr))]
     simp only [denoteSteps]
     cases flatMapM (stepDen root strict s) cur with
     | error e => rfl
-    | ok next => simp only [andThen_ok]; exact denOps_steps root strict r hwf.2 next
+    | ok next => simp only [andThen_ok]; exact denOps_steps root strict r hr next
 
-/-- **compiled AST = denotation**, for every well-formed AST (no `Canon` needed) -/
-theorem denOps_compile (root : Node) (strict : Bool) (p : Spec.Path) (hwf : p.steps.all Step.wf = true)
+/-- **compiled AST = denotation**, for every AST that raises one kind of error only (no `Canon` needed) -/
+theorem denOps_compile (root : Node) (strict : Bool) (p : Spec.Path) (hwf : UniSteps strict p.steps)
     (el : Pos) :
     denOps root strict (compile p) el = denote p root el strict := by
   unfold compile denote
@@ -442,6 +407,20 @@ theorem denOps_compile (root : Node) (strict : Bool) (p : Spec.Path) (hwf : p.st
   cases p.top with
   | true => simp [denOps]
   | false => simp
+
+theorem uni_compile (strict : Bool) (p : Spec.Path) (h : UniSteps strict p.steps) : Uni strict (compile p) := by
+  rcases h with h | h
+  · left
+    unfold compile NoZero
+    rw [List.all_append]
+    have := compile_noZero p.steps h
+    unfold NoZero at this
+    rw [this]
+    cases p.top <;> rfl
+  · exact Or.inr h
+
+theorem uni_canonicalize (strict : Bool) (ops : List Op) (h : Uni strict ops) : Uni strict (canonicalize ops) :=
+  h.imp (canonicalize_noZero ops) id
 
 /-! ### `_canonicalize` on the Canon domain -/
 
@@ -681,31 +660,19 @@ theorem canonicalize_sound (root : Node) (strict : Bool) (p : Spec.Path) (hc : C
     simp only [List.append_assoc] at this
     exact this
 
-/-- **evaluator ∘ canonicalize ∘ compile = denotation** on the Canon domain -/
+/-- **evaluator ∘ canonicalize ∘ compile = denotation** on the Canon domain (for paths that can
+    raise one kind of error only: no step written with stride 0, or non-strict lookups) -/
 theorem eval_denotes (root : Node) (strict : Bool) (p : Spec.Path)
-    (hwf : p.steps.all Step.wf = true) (hc : Canon p = true) (el : Pos) :
+    (hwf : UniSteps strict p.steps) (hc : Canon p = true) (el : Pos) :
     evalOps root strict (canonicalize (compile p)) el = denote p root el strict := by
-  have hz : NoZero (compile p) = true := by
-    unfold compile NoZero
-    rw [List.all_append]
-    have := compile_noZero p.steps hwf
-    unfold NoZero at this
-    rw [this]
-    cases p.top <;> rfl
-  rw [evalOps_denotes _ _ _ _ (canonicalize_noZero _ hz), canonicalize_sound _ _ _ hc, denOps_compile _ _ _ hwf]
+  rw [evalOps_denotes _ _ _ _ (uni_canonicalize _ _ (uni_compile strict p hwf)),
+    canonicalize_sound _ _ _ hc, denOps_compile _ _ _ hwf]
 
 /-- the same without `_canonicalize` (paths without `.`/`..` are not canonicalised), no `Canon` needed -/
 theorem eval_denotes_raw (root : Node) (strict : Bool) (p : Spec.Path)
-    (hwf : p.steps.all Step.wf = true) (el : Pos) :
+    (hwf : UniSteps strict p.steps) (el : Pos) :
     evalOps root strict (compile p) el = denote p root el strict := by
-  have hz : NoZero (compile p) = true := by
-    unfold compile NoZero
-    rw [List.all_append]
-    have := compile_noZero p.steps hwf
-    unfold NoZero at this
-    rw [this]
-    cases p.top <;> rfl
-  rw [evalOps_denotes _ _ _ _ hz, denOps_compile _ _ _ hwf]
+  rw [evalOps_denotes _ _ _ _ (uni_compile strict p hwf), denOps_compile _ _ _ hwf]
 
 /-- non-vacuity: `../l[1:]/x` is Canon and well-formed -/
 example : Canon ⟨false, [.up, .name ['l'], .slice (some 1) none none, .name ['x']]⟩ = true ∧
@@ -723,7 +690,7 @@ def C14_Full : Prop :=
 theorem C14_full_fails : ¬ C14_Full := by
   intro h
   have := h (.mk .map [] [] [.mk .scalar ['a'] ['a'] []]) true ⟨false, [.name ['n'], .up]⟩ [] (by decide)
-  rw [evalOps_denotes _ _ _ _ (by decide)] at this
+  rw [evalOps_denotes _ _ _ _ (Or.inl (by decide))] at this
   have h1 : denOps (.mk .map [] [] [.mk .scalar ['a'] ['a'] []]) true
       (canonicalize (compile ⟨false, [.name ['n'], .up]⟩)) [] = .ok [[]] := by decide
   have h2 : denote ⟨false, [.name ['n'], .up]⟩ (.mk .map [] [] [.mk .scalar ['a'] ['a'] []]) [] true
@@ -897,44 +864,18 @@ theorem cancel_wf (p : Spec.Path) (h : p.steps.all Step.wf = true) : (cancel p).
       exact ih _ (cancelStep_wf p.top acc s h1 h2.1) h2.2
   exact this p.steps [] rfl h
 
-/-- **C14 for every well-formed path, with the code's actual reading**: the evaluator on the
+theorem uniSteps_cancel (strict : Bool) (p : Spec.Path) (h : UniSteps strict p.steps) :
+    UniSteps strict (cancel p).steps := h.imp (cancel_wf p) id
+
+/-- **C14 for every path, with the code's actual reading**: the evaluator on the
     canonicalised compiled path = spec B's denotation of the cancelled path -/
 theorem eval_cancel_denotes (root : Node) (strict : Bool) (p : Spec.Path)
-    (hwf : p.steps.all Step.wf = true) (el : Pos) :
+    (hwf : UniSteps strict p.steps) (el : Pos) :
     evalOps root strict (canonicalize (compile p)) el = denote (cancel p) root el strict := by
-  have hz : NoZero (compile p) = true := by
-    unfold compile NoZero
-    rw [List.all_append]
-    have := compile_noZero p.steps hwf
-    unfold NoZero at this
-    rw [this]
-    cases p.top <;> rfl
-  rw [evalOps_denotes _ _ _ _ (canonicalize_noZero _ hz), denOps_canonicalize,
-    denOps_compile _ _ _ (cancel_wf p hwf)]
+  rw [evalOps_denotes _ _ _ _ (uni_canonicalize _ _ (uni_compile strict p hwf)), denOps_canonicalize,
+    denOps_compile _ _ _ (uniSteps_cancel strict p hwf)]
 
 /-! ### tokenizer ∘ printer -/
-
-theorem wfLast_stepwf (c : CStep) (h : c.wfLast = true) : c.step.wf = true := by
-  simp only [CStep.wfLast, Bool.and_eq_true] at h; exact h.1
-
-theorem wf_stepwf (c : CStep) (h : c.wf = true) : c.step.wf = true := by
-  simp only [CStep.wf, Bool.and_eq_true] at h; exact h.1
-
-theorem wfSteps_stepwf (trail : Bool) : ∀ cs : List CStep, wfSteps trail cs = true →
-    ∀ c ∈ cs, c.step.wf = true
-  | [], _, c, hc => by simp at hc
-  | [x], h, c, hc => by
-    simp only [List.mem_singleton] at hc; subst hc
-    simp only [wfSteps] at h
-    cases trail with
-    | true => exact wf_stepwf c (by simpa using h)
-    | false => exact wfLast_stepwf c (by simpa using h)
-  | x :: y :: r, h, c, hc => by
-    simp only [wfSteps, Bool.and_eq_true] at h
-    simp only [List.mem_cons] at hc
-    rcases hc with hc | hc
-    · subst hc; exact wf_stepwf c h.1
-    · exact wfSteps_stepwf trail (y :: r) h.2 c (by simpa using hc)
 
 theorem stepsOK_of_wf (trail : Bool) : ∀ cs : List CStep, wfSteps trail cs = true →
     (∀ c ∈ cs, StepFits c.step) → StepsOK trail cs
@@ -975,21 +916,24 @@ theorem tokenize_print (p : CPath) (hwf : p.wf = true) (hfit : ∀ c ∈ p.steps
   rw [this]
   cases p.steps.any (fun c => c.step.isUp || c.step.isHere) <;> rfl
 
-/-- **end to end**: `find` on the printed path = spec B's reading of the AST, on the Canon domain -/
+/-- **end to end**: `find` on the printed path = spec B's reading of the AST, on the Canon domain,
+    for paths that can raise one kind of error only (no step written with stride 0, or non-strict) -/
 theorem find_print_denotes (root : Node) (start : Pos) (p : CPath) (single strict : Bool)
-    (hwf : p.wf = true) (hfit : ∀ c ∈ p.steps, StepFits c.step) (hc : Canon p.abstract = true) :
+    (hwf : p.wf = true) (hfit : ∀ c ∈ p.steps, StepFits c.step) (hc : Canon p.abstract = true)
+    (hu : UniSteps strict p.abstract.steps) :
     find root start (print p) single strict = findSpec p.abstract root start single strict := by
-  have hwf' : p.abstract.steps.all Step.wf = true := by
-    simp only [CPath.abstract, List.all_map, List.all_eq_true]
-    intro c hc'
-    exact wfSteps_stepwf p.trail p.steps hwf c hc'
-  rw [find_denotes, tokenize_print p hwf hfit]
+  have huo : Uni strict (if p.steps.any (fun c => c.step.isUp || c.step.isHere) then canonicalize (compile p.abstract)
+        else compile p.abstract) := by
+    split
+    · exact uni_canonicalize _ _ (uni_compile strict _ hu)
+    · exact uni_compile strict _ hu
+  rw [find_denotes _ _ _ _ _ _ (tokenize_print p hwf hfit) huo]
   have hden : denOps root strict
       (if p.steps.any (fun c => c.step.isUp || c.step.isHere) then canonicalize (compile p.abstract)
         else compile p.abstract) start = denote p.abstract root start strict := by
     split
-    · rw [canonicalize_sound _ _ _ hc, denOps_compile _ _ _ hwf']
-    · rw [denOps_compile _ _ _ hwf']
+    · rw [canonicalize_sound _ _ _ hc, denOps_compile _ _ _ hu]
+    · rw [denOps_compile _ _ _ hu]
   simp only [hden, findResOf, findSpec]
   cases denote p.abstract root start strict with
   | error e => cases single <;> rfl
@@ -1007,28 +951,30 @@ theorem canon_of_noDots : ∀ (steps : List Step) (seen : Bool),
     | negidx n => simp only [canonFrom]; exact canon_of_noDots r true h.2
     | slice a b c => simp only [canonFrom]; exact canon_of_noDots r true h.2
 
-/-- **end to end, every well-formed path** (no Canon restriction): `find` on the printed path =
+/-- **end to end, every spellable path** (no Canon restriction): `find` on the printed path =
     spec B's reading of the *cancelled* AST — the exact content of KF-C14-a -/
 theorem find_print_cancel (root : Node) (start : Pos) (p : CPath) (single strict : Bool)
-    (hwf : p.wf = true) (hfit : ∀ c ∈ p.steps, StepFits c.step) :
+    (hwf : p.wf = true) (hfit : ∀ c ∈ p.steps, StepFits c.step) (hu : UniSteps strict p.abstract.steps) :
     find root start (print p) single strict = findSpec (cancel p.abstract) root start single strict := by
-  have hwf' : p.abstract.steps.all Step.wf = true := by
-    simp only [CPath.abstract, List.all_map, List.all_eq_true]
-    intro c hc'
-    exact wfSteps_stepwf p.trail p.steps hwf c hc'
-  rw [find_denotes, tokenize_print p hwf hfit]
+  have huo : Uni strict (if p.steps.any (fun c => c.step.isUp || c.step.isHere) then canonicalize (compile p.abstract)
+        else compile p.abstract) := by
+    split
+    · exact uni_canonicalize _ _ (uni_compile strict _ hu)
+    · exact uni_compile strict _ hu
+  rw [find_denotes _ _ _ _ _ _ (tokenize_print p hwf hfit) huo]
+  have huc := uniSteps_cancel strict p.abstract hu
   have hden : denOps root strict
       (if p.steps.any (fun c => c.step.isUp || c.step.isHere) then canonicalize (compile p.abstract)
         else compile p.abstract) start = denote (cancel p.abstract) root start strict := by
     split
-    · rw [denOps_canonicalize, denOps_compile _ _ _ (cancel_wf _ hwf')]
+    · rw [denOps_canonicalize, denOps_compile _ _ _ huc]
     · next hno =>
       have hno' : p.abstract.steps.any (fun s => s.isUp || s.isHere) = false := by
         simp only [CPath.abstract, List.any_map]
         simpa [Function.comp_def] using hno
       have hc : Canon p.abstract = true := canon_of_noDots _ false hno'
       rw [← canonicalize_sound root strict p.abstract hc, denOps_canonicalize,
-        denOps_compile _ _ _ (cancel_wf _ hwf')]
+        denOps_compile _ _ _ huc]
   simp only [hden, findResOf, findSpec]
   cases denote (cancel p.abstract) root start strict with
   | error e => cases single <;> rfl
@@ -1077,17 +1023,23 @@ theorem lax_never_raises (root : Node) : ∀ (ops : List Op) (el : Pos), NoZero 
 /-- … and so does `find(path, strict=False)` for every path string that compiles -/
 theorem find_lax_never_lookup (root : Node) (start : Pos) (path : Str) (single : Bool) (ops : List Op)
     (ht : tokenize path = .ok ops) : find root start path single false ≠ .err .lookup := by
-  rw [find_denotes, ht]
-  obtain ⟨res, hr⟩ := lax_never_raises root ops start (tokenize_noZero path ops ht)
-  simp only [hr, findResOf]
-  cases single with
-  | false => simp
-  | true =>
-    simp only [if_true, singleOf]
-    match res with
-    | [] => simp
-    | [p] => simp
-    | p :: q :: r => simp
+  rw [find_denotes _ _ _ _ _ _ ht (Or.inr rfl)]
+  have hv := denOps_lax_onlyValue root ops start
+  cases hr : denOps root false ops start with
+  | error e =>
+    have := hv e hr
+    subst this
+    simp [findResOf]
+  | ok res =>
+    simp only [findResOf]
+    cases single with
+    | false => simp
+    | true =>
+      simp only [if_true, singleOf]
+      match res with
+      | [] => simp
+      | [p] => simp
+      | p :: q :: r => simp
 
 theorem flatMapM_congr_ok {α β : Type} (f g : α → Except Err (List β)) :
     ∀ (xs : List α) (r : List β), (∀ x ∈ xs, ∀ y, f x = .ok y → g x = .ok y) →
@@ -1224,7 +1176,22 @@ theorem find_sorted (root : Node) (start : Pos) (p : CPath) (strict : Bool) (res
     (hasc : p.abstract.steps.all Step.ascending = true)
     (h : find root start (print p) false strict = .many res) :
     res.Pairwise (fun a b => posLt a b = true) := by
-  rw [find_print_denotes root start p false strict hwf hfit hc] at h
+  have hu : UniSteps strict p.abstract.steps := by
+    left
+    rw [List.all_eq_true] at hasc ⊢
+    intro s hs
+    have := hasc s hs
+    match s, this with
+    | .slice _ _ (some (some c)), h =>
+      simp only [Step.ascending, decide_eq_true_eq] at h
+      simp only [Step.wf, bne_iff_ne, ne_eq]; omega
+    | .slice _ _ none, _ => rfl
+    | .slice _ _ (some none), _ => rfl
+    | .up, _ => rfl
+    | .here, _ => rfl
+    | .name _, _ => rfl
+    | .negidx _, _ => rfl
+  rw [find_print_denotes root start p false strict hwf hfit hc hu] at h
   simp only [findSpec, Bool.false_eq_true, if_false] at h
   cases hd : denote p.abstract root start strict with
   | error e => rw [hd] at h; simp at h
@@ -1234,51 +1201,63 @@ theorem find_sorted (root : Node) (start : Pos) (p : CPath) (strict : Bool) (res
     subst h
     exact denote_sorted root strict p.abstract hc hasc start l hd
 
-/-! ### a slice step written as zero (KF-C14-b) -/
+/-! ### a slice step written as zero (was KF-C14-b; fixed in 9884fd3) -/
 
 /-- `[::0]`: the concrete path the grammar's "zero step" denotes -/
 def zeroStepPath : CPath := ⟨false, false, [⟨.slice none none (some (some 0)), {}⟩]⟩
 
-/-- `_parse_slice` reads the stride with `int(s) or 1`: a zero step becomes 1 -/
 theorem natStr_zero : natStr 0 = ['0'] := by rw [natStr]; rfl
 
 theorem print_zeroStepPath : print zeroStepPath = ['[', ':', ':', '0', ']'] := by
   simp [print, zeroStepPath, printSteps, CStep.text, optIntStr, intStr, natStr_zero]
 
-theorem zero_stride_reads_as_one :
-    tokenize (print zeroStepPath) = .ok [.slice none none (some 1)] := by
-  have hp : (['[', ':', ':', '0', ']'] : Str) = piecesText [Piece.br [':', ':', '0']] := by decide
-  have hbr : BrOK [':', ':', '0'] := ⟨by decide, by decide, by decide⟩
-  have hps : parseSlice [':', ':', '0'] = some (.slice none none (some 1)) := by decide
-  have hok : PiecesOK .start [Piece.br [':', ':', '0']] := by
-    simp only [PiecesOK]; exact ⟨hbr, trivial⟩
-  unfold tokenize
-  rw [print_zeroStepPath, hp, scan_pieces _ none .start hok (by simp)]
-  simp only [List.map_cons, List.map_nil, Piece.raw, tokLoop]
-  rw [tokStep_br {} _ _ (by simp) hps]
-  rfl
+/-- `_parse_slice` keeps an explicit step 0 (`int(segs[2]) if segs[2] else 1`) — an instance of
+    `tokenize_print`, which no longer excludes zero strides -/
+theorem zero_stride_stays_zero :
+    tokenize (print zeroStepPath) = .ok [.slice none none (some 0)] := by
+  have hfit : ∀ c ∈ zeroStepPath.steps, StepFits c.step := by
+    intro c hc
+    simp only [zeroStepPath, List.mem_singleton] at hc
+    subst hc
+    refine ⟨trivial, trivial, ?_⟩
+    show IntFits 0
+    left
+    simp [natStr_zero]
+    decide
+  have := tokenize_print zeroStepPath (by decide) hfit
+  simpa [zeroStepPath, CPath.abstract, compile, compileStep, Step.isUp, Step.isHere] using this
 
-/-- the property with a zero step in its quantifier: `[a:b:0]` should select what the Python slice
-    `a:b:0` selects, i.e. raise `ValueError` as soon as an element is reached -/
+/-- **a step written as zero raises `ValueError` as soon as it is reached**, strict or not, exactly
+    as the Python slice `a:b:0` of spec B does -/
+theorem zero_step_raises (root : Node) (start : Pos) (single strict : Bool) :
+    find root start (print zeroStepPath) single strict = .err .value ∧
+    findSpec zeroStepPath.abstract root start single strict = .err .value := by
+  constructor
+  · unfold find
+    rw [zero_stride_stays_zero]
+    simp only [evalOps]
+    rw [work_cons]
+    simp [runCtx]
+  · cases single <;>
+      simp [findSpec, denote, denoteSteps, flatMapM, stepDen, Step.stride, zeroStepPath, CPath.abstract, singleOf]
+
+/-- the property with a zero step in its quantifier, on the path `[::0]` -/
 def C14_ZeroStep : Prop :=
-  ∀ (root : Node) (start : Pos) (strict : Bool),
-    find root start (print zeroStepPath) false strict = findSpec zeroStepPath.abstract root start false strict
+  ∀ (root : Node) (start : Pos) (single strict : Bool),
+    find root start (print zeroStepPath) single strict = findSpec zeroStepPath.abstract root start single strict
 
-/-- KF-C14-b: on a one-member list `find('[::0]')` returns the member (the result for `[::1]`)
-    where Python's slice raises -/
-theorem C14_zero_step_fails : ¬ C14_ZeroStep := by
-  intro h
-  have := h (.mk .list ['l'] ['l'] [.mk .scalar [] [] []]) [] true
-  unfold find at this
-  rw [zero_stride_reads_as_one] at this
-  simp only at this
-  rw [evalOps_denotes _ _ _ _ (by decide)] at this
-  have h1 : denOps (.mk .list ['l'] ['l'] [.mk .scalar [] [] []]) true [.slice none none (some 1)] []
-      = .ok [[0]] := by decide
-  have h2 : denote zeroStepPath.abstract (.mk .list ['l'] ['l'] [.mk .scalar [] [] []]) [] true
-      = .error .value := by decide
-  simp only [h1, findSpec, h2] at this
-  simp at this
+/-- it holds since 9884fd3 (it was refuted before: `C14_zero_step_fails`) -/
+theorem C14_zero_step_ok : C14_ZeroStep := by
+  intro root start single strict
+  obtain ⟨h1, h2⟩ := zero_step_raises root start single strict
+  rw [h1, h2]
+
+/-- … and for every spellable Canon path containing zero steps, under non-strict lookups:
+    `find` = spec B, `ValueError` included (an instance of `find_print_denotes`) -/
+theorem find_print_denotes_lax (root : Node) (start : Pos) (p : CPath) (single : Bool)
+    (hwf : p.wf = true) (hfit : ∀ c ∈ p.steps, StepFits c.step) (hc : Canon p.abstract = true) :
+    find root start (print p) single false = findSpec p.abstract root start single false :=
+  find_print_denotes root start p single false hwf hfit hc (Or.inr rfl)
 
 /-- a name step written as a segment (not as `[n]`), for a name the grammar can spell -/
 def NameSeg (c : CStep) : Prop := ∃ s, c.step = .name s ∧ c.sp.bracket = false ∧ GoodName s = true
